@@ -16,7 +16,13 @@ import (
 	"time"
 )
 
-const VerifDir = "/verif"
+// VerifDir is where the framework lives (evidence, replays, drivers, known findings).
+var VerifDir = func() string {
+	if d := os.Getenv("VERIF_DIR"); d != "" {
+		return d
+	}
+	return "/verif"
+}()
 
 // Ctx is one run of one check.
 type Ctx struct {
